@@ -528,8 +528,10 @@ class FunctionLocation(Location):
         """
         super().__init__(position)
         self.__function_name = function_name
+        self.__given_name = function_name
         self.__path = path
         self.__tracepoint_line = line
+        self.__owners = {}
 
     def at_location(self, event: str, file: str, line: int, function_name: str, frame: FrameType):
         """
@@ -545,23 +547,66 @@ class FunctionLocation(Location):
         if file != self.path:
             return False
 
-        # if method_name is not set then we need to discover it from the frame.
-        if self.__function_name is None:
+        # if method_name is not set then the function is the one the line of the tracepoint belongs to. That is looked
+        # up for each code object (and remembered): the name of the first match is not enough, other functions in the
+        # file can have the same name
+        if self.__given_name is None:
             if event != "call" or not self._is_entry(frame):
                 return False
-            # is the line of the tracepoint code of the function being entered? (its own lines: the body of a
-            # nested function belongs to that function) - the event line is no use, on entry it is the 'def' line
             code = frame.f_code
-            if self.__tracepoint_line == code.co_firstlineno or \
-                    self.__tracepoint_line in [line_no for _, line_no in dis.findlinestarts(code)]:
-                # set the method to this name (so we do not need to look it up again)
+            owns = self.__owners.get(code)
+            if owns is None:
+                owns = self.__owners[code] = self._owns_line(code, self.__tracepoint_line)
+            if owns:
+                # the name of the location, for what is named after it (spans)
                 self.__function_name = function_name
-                return True
-            return False
+            return owns
 
         if event == "call" and function_name == self.__function_name and self._is_entry(frame):
             return True
         return False
+
+    @staticmethod
+    def _last_line(code) -> int:
+        last = code.co_firstlineno
+        for _, line_no in dis.findlinestarts(code):
+            if line_no is not None and line_no > last:
+                last = line_no
+        for const in code.co_consts:
+            if hasattr(const, 'co_firstlineno'):
+                last = max(last, FunctionLocation._last_line(const))
+        return last
+
+    @staticmethod
+    def _owns_line(code, line: int) -> bool:
+        """
+        Is the line part of this function (or class body) itself.
+
+        A line belongs to the innermost def or class statement whose extent - first decorator to last line - contains
+        it: not to a function nested in this one, but also when it carries no instruction of its own (the def line
+        under a decorator, a docstring, the continuation of a statement). Lambdas and comprehensions are part of the
+        function they are written in.
+
+        :param code: the code object of the function being entered
+        :param line: the line of the tracepoint
+        :return: True, if the tracepoint is in this function
+        """
+        if code.co_name.startswith('<'):
+            return False
+        if line < code.co_firstlineno or line > FunctionLocation._last_line(code):
+            return False
+        todo = list(code.co_consts)
+        while todo:
+            const = todo.pop()
+            if not hasattr(const, 'co_firstlineno'):
+                continue
+            if const.co_name.startswith('<'):
+                # not a scope of its own for this purpose, but a def inside it (a lambda cannot hold one) would be
+                todo.extend(const.co_consts)
+                continue
+            if const.co_firstlineno <= line <= FunctionLocation._last_line(const):
+                return False
+        return True
 
     @staticmethod
     def _is_entry(frame: FrameType) -> bool:
@@ -592,9 +637,9 @@ class FunctionLocation(Location):
     @property
     def id(self):
         """The location id."""
-        if self.__function_name is None:
-            # not discovered yet: two such tracepoints in one file are different locations, and neither is the
-            # location of a line tracepoint on that line (whose id is <path>#<line>)
+        if self.__given_name is None:
+            # two such tracepoints in one file are different locations, and neither is the location of a line
+            # tracepoint on that line (whose id is <path>#<line>)
             return "%s#method@%s" % (self.path, self.__tracepoint_line)
         return "%s#%s" % (self.path, self.__function_name)
 
